@@ -98,6 +98,7 @@ Theorem C08_agree_implies_rebuild_partial : forall c,
   res_eqb obj_eqb (outcome_result (model_remap c)) (canon_res (c_out c)) = true ->
   list_eqb vcall_eqb (outcome_calls (model_remap c)) (c_calls c) = true ->
   hooks_match (model_remap c) (c_hooks c) = true ->
+  ids_match (model_remap c) (c_out c) (c_call_ids c) = true ->
   ok_rebuild c = true.
 Proof. exact agree_implies_rebuild. Qed.
 Print Assumptions C08_agree_implies_rebuild_partial.
